@@ -621,6 +621,38 @@ func selfcheck(t *testing.T, c core.Cfg, part *core.Partial) {
 			}
 		}
 	}
+	if c.Property == "C06" && c.Mode != "race" && (c.Worker == 1 || c.Worker == 2) {
+		// a large foreign document that its importer rejects: the arr.ai importers quote the
+		// whole input and a trace in their error (several KB); the failing file must still
+		// be named.  Once per run (a conversion takes seconds).
+		var doc strings.Builder
+		doc.WriteString("openapi: \"3.0.0\"\ninfo:\n  title: Orders\n  version: \"1.0\"\npaths:\n")
+		for i := 0; i < 40+10*c.Worker; i++ {
+			fmt.Fprintf(&doc, "  /orders/region%03d:\n    get:\n      responses:\n        200:\n          description: \"the orders of region %03d\"\n", i, i)
+		}
+		text := doc.String()
+		if c.Worker == 1 {
+			text = text[:len(text)-5] // ends inside a quoted string, as a cut-off download would
+		} else {
+			text = strings.Replace(text, "paths:\n", "paths: 7\nx-paths:\n", 1)
+		}
+		w := &Workload{Family: "plain", Template: "selfcheck-big-foreign", Files: []*FileSpec{
+			{ID: 0, Path: "f0.sysl", Kind: "sysl", Imports: []ImportSpec{{To: 1, Spell: "apis/f1.yaml", As: foreignAs(1)}, {To: 2, Spell: "f2"}}},
+			{ID: 1, Path: "apis/f1.yaml", Kind: "openapi3"},
+			{ID: 2, Path: "f2.sysl", Kind: "sysl"}}}
+		for _, f := range w.Files {
+			f.Text = render(w, f)
+		}
+		w.Files[1].Text = text
+		w.Faults = []Fault{{File: 1, Kind: "bad-foreign", Certain: true}}
+		o := Execute(t, w, core.First{}, 100000)
+		part.Counters.Inc("selfcheck_large_rejected_foreign_document")
+		part.Counters.Inc("fault_bad-foreign")
+		for _, v := range Check(w, Model(w), o, nil, true) {
+			p := writeReplay(c, found{v: v, w: w, picks: o.Picks, o: o}, true, 0)
+			part.Violations = append(part.Violations, core.ViolationRec{Class: v.Class, Detail: v.Detail, Replay: p})
+		}
+	}
 	w := &Workload{Family: "plain", Template: "selfcheck", Files: []*FileSpec{{ID: 0, Path: "f0.sysl", Kind: "sysl"}}}
 	w.Files[0].Text = render(w, w.Files[0])
 	o := Execute(t, w, core.First{}, 100)
